@@ -67,6 +67,62 @@ def real_sql(text: str, dialect: str = "sqlite", alias: Optional[str] = None) ->
         return "crash", f"{type(e).__name__}: {e}"
 
 
+# ---------------------------------------------------------------------- visitor instance reuse (call-history sweep)
+_LONG: Dict[Any, Any] = {}          # (dialect, alias) -> one long-lived visitor per worker process
+_HISTORY: Dict[Any, List[str]] = {}  # the filters that instance has translated so far, in order
+
+
+def _visitor_class(dialect: str):
+    from odata_query import sql as sqlmod
+    return {"sqlite": sqlmod.AstToSqliteSqlVisitor, "standard": sqlmod.AstToSqlVisitor,
+            "athena": sqlmod.AstToAthenaSqlVisitor}[dialect]
+
+
+def _render_with(visitor, text: str) -> Tuple[str, Any]:
+    from odata_query import exceptions as ex
+    try:
+        return "ok", visitor.visit(real_parse(text))          # the AST is not kept: it is garbage after this call
+    except ex.ODataException as e:
+        return "refused", f"{type(e).__name__}: {e}"
+    except Exception as e:                                     # noqa: BLE001
+        return "crash", f"{type(e).__name__}: {e}"
+
+
+def reuse_check(text: str, dialect: str, alias: Optional[str], fresh: Tuple[str, Any]) -> Optional[dict]:
+    """A visitor instance that already translated other filters must translate `text` exactly like a fresh one.
+    Returns None if it does, else a witness {history, ...}.  This is a call-history sweep on the real code (no solver):
+    one long-lived instance per worker and (dialect, alias) sees every program of the run in turn."""
+    if ACTIVE_MUTANT:
+        return None
+    key = (dialect, alias)
+    cls = _visitor_class(dialect)
+    if key not in _LONG:
+        _LONG[key] = cls(table_alias=alias) if alias else cls()
+        _HISTORY[key] = []
+    hist = _HISTORY[key]
+    got = _render_with(_LONG[key], text)
+    hist.append(text)
+    if fresh[0] in ("parser_rejected", "parser_crash") or got == fresh or (got[0] == fresh[0] != "ok"):
+        return None
+    again = _render_with(_LONG[key], text)                    # same instance, same call: still different?
+    seq = replay_history(hist, dialect, alias)
+    return {"filter": text, "dialect": dialect, "alias": alias, "fresh_visitor": list(fresh), "reused_visitor": list(got),
+            "reused_visitor_again": list(again), "history": list(hist), "calls_before": len(hist) - 1,
+            "sequence_replay_on_new_instance": seq, "defect_class": "visitor-instance-reuse"}
+
+
+def replay_history(history: List[str], dialect: str, alias: Optional[str]) -> dict:
+    """Re-run the whole call sequence on a brand-new instance and compare its last answer with a fresh visitor's."""
+    cls = _visitor_class(dialect)
+    v = cls(table_alias=alias) if alias else cls()
+    last = None
+    for t in history:
+        last = _render_with(v, t)
+    f = cls(table_alias=alias) if alias else cls()
+    fresh = _render_with(f, history[-1])
+    return {"reproduced": last != fresh and not (last[0] == fresh[0] != "ok"), "last": list(last), "fresh": list(fresh)}
+
+
 # ---------------------------------------------------------------------- real sqlite3
 def sqlite_select(db: SymDB, content: Dict[str, List[dict]], where_sql: str, table: str = "t") -> Tuple[str, Any]:
     """-> ('rows', [ids]) | ('error', message)"""
@@ -157,6 +213,8 @@ def _check(item: dict, out: dict) -> None:
     out["filter"] = text
     out["features"] = G.features(term)
     status, sql = real_sql(text, "sqlite")
+    if not item.get("_no_reuse"):
+        out["reuse"] = reuse_check(text, "sqlite", None, (status, sql))
     if status != "ok":
         out["status"] = status
         out["why"] = sql
@@ -180,7 +238,7 @@ def _check(item: dict, out: dict) -> None:
         return
     if sent and not _opaque(term, sent, tree, full, "sqlite"):
         # literals are not copied opaquely: fall back to concrete literals for this program
-        item2 = dict(item, mode="concrete")
+        item2 = dict(item, mode="concrete", _no_reuse=True)
         out["note"] = "integer literals not rendered opaquely; checked with concrete literals"
         _check(item2, out)
         return
